@@ -215,11 +215,12 @@ def text_of_tokens(ts, rnd, p_nl=0.3):
     return ''.join(t + (('\n' if rnd.random() < p_nl else ' ')) for t in ts)
 
 
-def canonical(defs, main, rnd=None, alone=0.5):
+def canonical(defs, main, rnd=None, alone=0.5, pv=None):
     """One statement per line.  Returns (text, L) with L mapping uid -> line, ('end',uid) -> line of
     the loop's END, ('lab',uid) -> line of a label that stands alone, ('pend',i) -> line of the
     END of program i, ('hdr', i) -> header line."""
     lines, L = [], {}
+    pv = pv or globals()['pv']
 
     def ps(ss, ind):
         pend = ''
